@@ -188,10 +188,27 @@ func (dec *Decimal) SetString(s string) error {
 	s = strings.TrimSpace(s)
 
 	split := strings.Split(s, ".")
+	if len(split) > 2 {
+		return fmt.Errorf("failed to parse number %s: more than one decimal point", s)
+	}
 	left := split[0]
 	right := ""
 	if len(split) > 1 {
 		right = split[1]
+	}
+
+	// A sign is only valid in front of the number.
+	if strings.ContainsAny(right, "+-") {
+		return fmt.Errorf("failed to parse number %s: sign after the decimal point", s)
+	}
+
+	// Fractional digits beyond the scale cannot be stored. Only zeroes
+	// can be dropped without changing the value.
+	if len(right) > dec.Scale {
+		if strings.TrimRight(right[dec.Scale:], "0") != "" {
+			return fmt.Errorf("number %s has more than %d fractional digits", s, dec.Scale)
+		}
+		right = right[:dec.Scale]
 	}
 
 	// Set underlying big.Int structure to the whole number
@@ -205,6 +222,13 @@ func (dec *Decimal) SetString(s string) error {
 		mul := big.NewInt(10)
 		mul.Exp(mul, big.NewInt(int64(dec.Scale-len(right))), nil)
 		i.Mul(i, mul)
+	}
+
+	// The number must fit into the precision of the decimal.
+	limit := big.NewInt(10)
+	limit.Exp(limit, big.NewInt(int64(dec.Precision)), nil)
+	if i.CmpAbs(limit) >= 0 {
+		return fmt.Errorf("number %s has more than %d digits", s, dec.Precision)
 	}
 
 	dec.i = i
